@@ -322,9 +322,14 @@ async fn scenario(g: &Group, rng: &mut StdRng, sc: usize, panics: &Arc<parking_l
 		}
 		settle(rng.random_range(0..4)).await;
 	}
+	wind_down(&rig, &tracer, tasks, &slots, panics).await;
+	tracer.take()
+}
+
+async fn wind_down(rig: &Rig, tracer: &Tracer, tasks: Vec<tokio::task::JoinHandle<()>>, slots: &BTreeMap<String, SubSlot>, panics: &Arc<parking_lot::Mutex<Vec<String>>>) {
 	// ---- wind down: let everything run, look at the tables, then end the connection if anything is still open
 	settle(80).await;
-	sizes(&rig, &tracer);
+	sizes(rig, tracer);
 	if rig.client.is_connected() {
 		// (an armed send fault that never fired leaves the connection up: end it from the peer's side)
 		tracer.ev(json!({"ev": "Fault", "f": "peerClose"}));
@@ -337,7 +342,7 @@ async fn scenario(g: &Group, rng: &mut StdRng, sc: usize, panics: &Arc<parking_l
 			tracer.ev(json!({"ev": "Timeout", "what": "front-end future still pending 6 s after the connection ended"}));
 		}
 	}
-	for (h, slot) in &slots {
+	for (h, slot) in slots {
 		let mut gd = slot.lock();
 		if let Some(s) = gd.as_mut() {
 			// drain what is buffered, then the stream must report its end
@@ -369,6 +374,164 @@ async fn scenario(g: &Group, rng: &mut StdRng, sc: usize, panics: &Arc<parking_l
 		tracer.ev(json!({"ev": "Panic", "where": p}));
 	}
 	tracer.ev(json!({"ev": "End"}));
+}
+
+/// One application step on a held stream (shared by the random and the scripted driver).  `what`: "next" | "unsub" | "drop".
+fn stream_step(what: &str, h: &str, slots: &BTreeMap<String, SubSlot>, tracer: &Tracer, tasks: &mut Vec<tokio::task::JoinHandle<()>>) {
+	let Some(slot) = slots.get(h).cloned() else { return };
+	if slot.lock().is_none() {
+		return;
+	}
+	match what {
+		"next" => {
+			let mut gd = slot.lock();
+			let s = gd.as_mut().unwrap();
+			match s.next().now_or_never() {
+				Some(Some(Ok(v))) => tracer.ev(json!({"ev": "SubNext", "h": h, "n": v})),
+				Some(Some(Err(e))) => tracer.ev(json!({"ev": "SubNext", "h": h, "n": -1, "err": e.to_string()})),
+				Some(None) => {
+					let lagged = matches!(s.close_reason(), Some(jsonrpsee_core::client::SubscriptionCloseReason::Lagged));
+					tracer.ev(json!({"ev": "SubEnd", "h": h, "lagged": lagged}));
+					*gd = None;
+				}
+				None => {}
+			}
+		}
+		"unsub" => {
+			let s = slot.lock().take().unwrap();
+			let t2 = tracer.clone();
+			let h2 = h.to_string();
+			tracer.ev(json!({"ev": "SubUnsub", "h": h}));
+			tasks.push(tokio::spawn(async move {
+				let _ = s.unsubscribe().await;
+				t2.ev(json!({"ev": "SubUnsubDone", "h": h2}));
+			}));
+		}
+		_ => {
+			let s = slot.lock().take().unwrap();
+			drop(s);
+			tracer.ev(json!({"ev": "SubDrop", "h": h}));
+		}
+	}
+}
+
+fn inject(f: &str, rig: &Rig, tracer: &Tracer) {
+	tracer.ev(json!({"ev": "Fault", "f": f}));
+	match f {
+		"sendErr" => rig.faults.send_err.store(true, std::sync::atomic::Ordering::SeqCst),
+		other => {
+			let _ = rig.peer_tx.send(PeerItem::Fail(other.into()));
+		}
+	}
+}
+
+// ------------------------------------------------------------------------------------------------------------------
+/// Scripts generated by TLC from Client.tla (spec/Gen_Client.tla): the environment's steps of a simulated behaviour, replayed
+/// against the real client.  The client's own steps happen as the runtime schedules them (a seeded number of scheduler turns
+/// is granted between two steps, sometimes none); the recorded execution is validated against Trace_Client.tla afterwards.
+pub fn run_scripts(gname: &str, scripts_path: &str, out_path: &str) {
+	let g = group(gname);
+	let scripts = crate::common::read_cases(scripts_path);
+	let rt = tokio::runtime::Builder::new_current_thread().enable_all().build().unwrap();
+	let mut outf = crate::common::Out::create(out_path);
+	let prev = std::panic::take_hook();
+	let panics: Arc<parking_lot::Mutex<Vec<String>>> = Default::default();
+	{
+		let p = panics.clone();
+		std::panic::set_hook(Box::new(move |info| {
+			p.lock().push(info.to_string());
+		}));
+	}
+	for (sc, script) in scripts.iter().enumerate() {
+		let mut rng = rng_for(sc, 77 + gname.len());
+		let evs = rt.block_on(scripted(&g, &mut rng, sc, script, &panics));
+		for e in evs {
+			outf.raw(&e);
+		}
+	}
+	std::panic::set_hook(prev);
+	outf.finish();
+}
+
+/// the ids (model numbering = wire numbering: both count 0,1,2,.. in the order the operations start) a text refers to
+fn ids_of(m: &Value) -> Vec<i64> {
+	match m["t"].as_str().unwrap_or("") {
+		"resp" => vec![m["id"].as_i64().unwrap()],
+		"array" => m["elems"].as_array().unwrap().iter().flat_map(ids_of).collect(),
+		_ => vec![],
+	}
+}
+
+async fn scripted(g: &Group, rng: &mut StdRng, sc: usize, script: &Value, panics: &Arc<parking_lot::Mutex<Vec<String>>>) -> Vec<Value> {
+	let string_ids = sc % 3 == 2;
+	let rig = build(g.max_queue, g.buf_cap, string_ids, Duration::from_secs(4), sc as u64 + seed());
+	let tracer = rig.tracer.clone();
+	tracer.ev(json!({"ev": "Reset", "sc": sc, "group": g.name, "string_ids": string_ids, "scripted": true}));
+	let mut slots: BTreeMap<String, SubSlot> = BTreeMap::new();
+	for (h, k, _) in &g.ops {
+		if *k == "sub" {
+			slots.insert(h.to_string(), Default::default());
+		}
+	}
+	let mut peer = Peer { ntok: 0, pushed: BTreeMap::new(), max_arr: 3, string_ids };
+	let mut tasks = vec![];
+	let mut started: Vec<String> = vec![];
+	let mut faulted = false;
+	// how eagerly the client is allowed to run between two steps of this script
+	let pace = rng.random_range(0..3);
+	for step in script["script"].as_array().unwrap() {
+		match step["op"].as_str().unwrap() {
+			"start" => {
+				let h = step["h"].as_str().unwrap();
+				if let Some((h, k, n)) = g.ops.iter().find(|o| o.0 == h) {
+					if !started.iter().any(|x| x == h) {
+						started.push(h.to_string());
+						tasks.push(start_op(&rig, h, k, *n, &slots));
+						// the wire ids follow the order in which the futures are first polled: let this one take its id
+						settle(1).await;
+					}
+				}
+			}
+			"peer" if !faulted => {
+				let m0 = step["m"].clone();
+				// the model's peer answers what the model's client has sent; give the real client the turns it needs to get there
+				let want = ids_of(&m0);
+				for _ in 0..40 {
+					let seen: Vec<i64> = rig.wire.lock().iter().flat_map(|o| o.ids.iter().map(id_as_num).collect::<Vec<_>>()).collect();
+					if want.iter().all(|w| seen.contains(w)) {
+						break;
+					}
+					settle(1).await;
+				}
+				let m = peer.number(m0);
+				let text = peer.text(&m);
+				tracer.ev(json!({"ev": "PeerSend", "m": m}));
+				let _ = rig.peer_tx.send(PeerItem::Text(text, m));
+			}
+			"next" | "unsub" | "drop" => {
+				// the model polls a stream that holds an item: give the real one the turns to receive it
+				if step["op"] == "next" {
+					settle(6).await;
+				}
+				stream_step(step["op"].as_str().unwrap(), step["h"].as_str().unwrap(), &slots, &tracer, &mut tasks);
+			}
+			"fault" if !faulted => {
+				faulted = true;
+				inject(step["f"].as_str().unwrap(), &rig, &tracer);
+			}
+			_ => {}
+		}
+		match pace {
+			0 => settle(rng.random_range(0..3)).await,
+			1 => settle(rng.random_range(0..12)).await,
+			_ => settle(40).await,
+		}
+		if rng.random_range(0..12) == 0 {
+			settle(60).await;
+			sizes(&rig, &tracer);
+		}
+	}
+	wind_down(&rig, &tracer, tasks, &slots, panics).await;
 	tracer.take()
 }
 
